@@ -577,3 +577,16 @@ func Replay(i int, raw []byte) child.Result {
 	child.EmitBatch("crash", events)
 	return child.Pass(sc.Kind + "/" + sc.Mode)
 }
+
+// ScanState projects a repository directory as a "state" event for TraceCrash.tla
+// (used by the system engine after every command).
+func ScanState(r *cli.Repo, name string) (interface{}, error) {
+	db, rs, closeFn, err := r.Open()
+	if err != nil {
+		return nil, err
+	}
+	defer closeFn()
+	st := &state{Op: "state", Name: name}
+	scan(db, rs, &ids{m: map[string]int{}}, st, nil)
+	return st, nil
+}
